@@ -774,8 +774,10 @@ class QMI_SocketTransport(QMI_Transport):
         try:
             ret = self.read(nbytes, timeout)
         except QMI_TimeoutException:
-            ret = bytes(self._read_buffer)
-            self._read_buffer = bytearray()
+            # Return at most the requested number of bytes; a UDP datagram larger than
+            # the missing byte count may have been buffered just before the timeout.
+            ret = bytes(self._read_buffer[:nbytes])
+            self._read_buffer = self._read_buffer[nbytes:]
         except QMI_EndOfInputException:
             if not self._read_buffer:
                 raise
